@@ -1,19 +1,26 @@
 """C08 — stream failures surface intact and never lose or duplicate items."""
 import vlib
 from pipes_common import PipeSpec
+from parmap_common import MapStreamSpec
 
-SPECS = {"stream-faults": (PipeSpec("stream", True), "harness", "runner")}
+SPECS = {"stream-faults": (PipeSpec("stream", True), "harness", "runner"), "mapstream": (MapStreamSpec(), "harness_parmap", "runner-parmap")}
 
 PROP_FILES = ["C08"]
 
 
 def run(ctx):
-    proofs_ok = ctx.check_proofs(PROP_FILES, extra_targets=["theories/Iter/Corr.vo"])
+    proofs_ok = ctx.check_proofs(PROP_FILES, extra_targets=["theories/Iter/Corr.vo", "theories/Conc/ParMapMatcherComplete.vo"])
     ok, out, exe = vlib.build_runner()
     if not ok:
         ctx.violation("harness-build", "the harness does not build against the current tree: " + out[-1500:], {"build_output": out[-4000:]}, failing_input=False)
         return ctx.finish()
     vlib.seq_differential(ctx, PipeSpec("stream", faults=True), exe, proofs_ok, tag="stream-faults")
+    # failures of a goroutine-backed stream (parallel.MapStream over a failing source / failing f): C14's scenario family
+    okc, outc, exec_ = vlib.build_runner(module="harness_parmap", exe_name="runner-parmap")
+    if okc:
+        vlib.seq_differential(ctx, MapStreamSpec(), exec_, proofs_ok, tag="mapstream", scale=0.4)
+    else:
+        ctx.violation("harness-build", "the harness does not build against the current tree: " + outc[-1500:], {"build_output": outc[-4000:]}, failing_input=False)
     vlib.merge_parts(ctx, "cases = random stream pipelines over scripted sources with transient and fatal errors at every position, failing callbacks (k-th call), "
                      "consumer steps with expired per-call contexts; every faulty case is paired with its fault-erased twin (metamorphic oracle: same successful items); "
                      "distinct = hash of (pipeline, program); non-trivial = at least one combinator and one step")
